@@ -64,13 +64,17 @@ class GdefFeatureWriter(BaseFeatureWriter):
                     and anchor.name.startswith("caret_")
                     and anchor.x is not None
                 ):
-                    glyphCarets.add(self._getAnchor(glyphName, anchor.name)[0])
+                    glyphCarets.add(
+                        self._getAnchor(glyphName, anchor.name, anchor=anchor)[0]
+                    )
                 elif (
                     anchor.name
                     and anchor.name.startswith("vcaret_")
                     and anchor.y is not None
                 ):
-                    glyphCarets.add(self._getAnchor(glyphName, anchor.name)[1])
+                    glyphCarets.add(
+                        self._getAnchor(glyphName, anchor.name, anchor=anchor)[1]
+                    )
 
             if glyphCarets:
                 if self.context.isVariable:
